@@ -316,7 +316,10 @@ def run_check(pid, tier):
             fam = P.PART_FAMILY[part]
             groups = class_groups(cfgs, fam)
             for rep, members in groups:
-                xf = P.TUS[tu]["cfg_flags"](rep, tier) if "cfg_flags" in P.TUS[tu] else []
+                xf = []
+                if "cfg_flags" in P.TUS[tu]:
+                    fn = P.TUS[tu]["cfg_flags"]
+                    xf = fn(rep, tier, part) if fn.__code__.co_argcount >= 3 else fn(rep, tier)
                 builds.append(Job(pid, rep, tu, part, members, extra_flags=xf))
             classes_info.append({"tu": tu, "part": part, "configs": len(cfgs), "classes": len(groups)})
     log("[%s %s] %d configurations -> %d harness builds" % (pid, tier, len(cfgs), len(builds)))
